@@ -959,7 +959,7 @@ PROPS["C18"] = {"generate": c18_generate, "judge": c18_judge, "group_judge": c18
 # ---- C15
 def c15_generate(rng, tier):
     a = genhist.gen_rt(rng, count(tier, 250, 2500), nmax=count(tier, 5, 6), faults=("all" if tier == "thorough" else None))
-    b = tag_cmp(genhist.gen_txt_fields(rng, count(tier, 300, 3000)), ["line", "parsed_line", "parsed_text"])
+    b = tag_cmp(genhist.gen_txt_fields(rng, count(tier, 300, 3000)), ["line", "parsed_line", "parsed_text", "stripped"])
     return tag_cmp(a, None) + b
 
 
@@ -990,7 +990,7 @@ PROPS["C15"] = {"generate": c15_generate,
                 "judge": c15_judge,
                 "level": "proof",
                 "rule": "graphs, divisors (magnitudes up to 10^30, also results of CFLaplacian.apply), partial/full orientations, sparse/dense scripts with plain, Unicode, long, blank-containing, digit-like and hostile names; dict (through json text), JSON file and TXT file round trips compared observationally with the original; fault enumeration per written file: byte-prefix truncations (quick: 64 evenly spaced + last 16; thorough: all) and single-byte corruptions (quick 48 random; thorough every position x 3 values): must not raise, JSON proper prefixes must read None, anything returned must be a well-formed object; missing files read None",
-                "theorems": ["graph_dict_roundtrip", "edge_list_canonical", "divisor_dict_roundtrip", "script_dict_roundtrip", "decimal_roundtrip", "orientation_dict_roundtrip", "txt_fields_roundtrip"]}
+                "theorems": ["graph_dict_roundtrip", "edge_list_canonical", "divisor_dict_roundtrip", "script_dict_roundtrip", "decimal_roundtrip", "orientation_dict_roundtrip", "txt_fields_roundtrip", "txt_line_roundtrip", "txt_int_field_clean", "txt_record_roundtrip"]}
 
 
 # ---- C19
